@@ -11,14 +11,11 @@ open PromVerif.Py PromVerif.Model.ParseCore PromVerif.Model.Validation PromVerif
 /-- a sample as `_parse_sample` returns it: labels and value are set -/
 def Plain (s : OSample) : Prop := s.labels.isSome = true ∧ s.value.isSome = true
 
-/-- no integer value too large for `float()` (the OverflowError class) -/
-def NotHuge (P : Params) (s : OSample) : Prop := ∀ n, s.value = some (.int n) → P.intTooBig n = false
+/-- a timestamp that `float()` converts (`Timestamp.__float__` does not overflow); floats and `None` always do -/
+def TsOK (P : Params) (ts : Option OTs) : Prop := ∀ a b, ts = some (.stamp a b) → (P.tsFloat a b).isSome = true
 
-/-- a class of timestamps that compare without raising: all `Timestamp`s, or all floats -/
-def TsClass (stamps : Bool) : Option OTs → Prop
-  | none => True
-  | some (.stamp _ _) => stamps = true
-  | some (.flt _) => stamps = false
+/-- interpreter fact used by the `le` test: `float("NaN")` is a NaN -/
+def NaNLiteral (P : Params) : Prop := ∀ f, P.pyFloat sNaN = some f → P.isNaN f = true
 
 theorem safe_raiseIfM (c : PyM Bool) (h : Safe c) : Safe (raiseIfM c) := by
   intro e he
@@ -36,14 +33,31 @@ theorem safe_isUncanonical (P : Params) (s : Str) : Safe (isUncanonicalNumber P 
 
 theorem safe_cmpOpt_some (P : Params) (op : CmpOp) (a b : Num) : Safe (P.cmpOpt op (some a) (some b)) := safe_ok _
 
-theorem safe_tsGt (P : Params) (k : Bool) (a b : OTs) (ha : TsClass k (some a)) (hb : TsClass k (some b)) : Safe (tsGt P a b) := by
-  cases a <;> cases b
-  · exact safe_ok _
-  · simp only [TsClass] at ha hb; rw [ha] at hb; cases hb
-  · simp only [TsClass] at ha hb; rw [hb] at ha; cases ha
-  · exact safe_ok _
+theorem safe_stampFloat (P : Params) (a b : Int) (h : (P.tsFloat a b).isSome = true) : ∃ f, stampFloat P a b = .ok f := by
+  obtain ⟨f, hf⟩ := Option.isSome_iff_exists.mp h
+  exact ⟨f, by simp only [stampFloat, hf]⟩
 
-theorem safe_chkGroupTs (P : Params) (k : Bool) (t : Str) (g s : Option OTs) (hg : TsClass k g) (hs : TsClass k s) :
+/-- comparing two timestamps raises nothing once `Timestamp` coerces a non-Timestamp operand (007bfee) and the
+conversion does not overflow -/
+theorem safe_tsGt (P : Params) (a b : OTs) (ha : TsOK P (some a)) (hb : TsOK P (some b)) : Safe (tsGt P a b) := by
+  have hflag : tsCoerce = true := by decide
+  cases a with
+  | stamp s n =>
+    cases b with
+    | stamp s2 n2 => exact safe_ok _
+    | flt f =>
+      obtain ⟨x, hx⟩ := safe_stampFloat P s n (ha s n rfl)
+      simp only [tsGt, hflag, if_true, hx]
+      exact safe_ok _
+  | flt f =>
+    cases b with
+    | stamp s n =>
+      obtain ⟨x, hx⟩ := safe_stampFloat P s n (hb s n rfl)
+      simp only [tsGt, hflag, if_true, hx]
+      exact safe_ok _
+    | flt g => exact safe_ok _
+
+theorem safe_chkGroupTs (P : Params) (t : Str) (g s : Option OTs) (hg : TsOK P g) (hs : TsOK P s) :
     Safe (chkGroupTs P t g s) := by
   unfold chkGroupTs
   by_cases c : (s.isNone != g.isNone) = true
@@ -57,11 +71,12 @@ theorem safe_chkGroupTs (P : Params) (k : Bool) (t : Str) (g s : Option OTs) (hg
       | some b =>
         dsimp only
         cases h : tsGt P a b with
-        | error e => intro e' he'; cases he'; exact safe_tsGt P k a b hg hs e h
+        | error e => intro e' he'; cases he'; exact safe_tsGt P a b hg hs e h
         | ok gt => exact safe_raiseIf _
 
 /-- the label / value checks before grouping -/
-theorem safe_preChecks (P : Params) (n : Str) (typ : Option Str) (s : OSample) (hp : Plain s) : Safe (preChecks P n typ s) := by
+theorem safe_preChecks (P : Params) (n : Str) (typ : Option Str) (s : OSample) (hp : Plain s) (hnan : NaNLiteral P) :
+    Safe (preChecks P n typ s) := by
   obtain ⟨hl, hv⟩ := hp
   obtain ⟨l, hl⟩ := Option.isSome_iff_exists.mp hl
   obtain ⟨v, hv⟩ := Option.isSome_iff_exists.mp hv
@@ -81,10 +96,31 @@ theorem safe_preChecks (P : Params) (n : Str) (typ : Option Str) (s : OSample) (
     split
     · simp only [labelsOrAttr, hl]
       split
-      · exact safe_valueError
       · split
+        · cases hf : P.floatE sNaN with
+          | error e => intro e' he'; cases he'; exact safe_floatE P _ e hf
+          | ok f =>
+            dsimp only
+            have : P.isNaN f = true := by
+              apply hnan
+              unfold Params.floatE at hf
+              split at hf
+              · rename_i b hb; cases hf; exact hb
+              · cases hf
+            rw [if_pos this]; exact safe_valueError
         · exact safe_valueError
-        · exact safe_raiseIfM _ (safe_isUncanonical P _)
+      · rename_i le _
+        split
+        · cases hf : P.floatE le with
+          | error e => intro e' he'; cases he'; exact safe_floatE P _ e hf
+          | ok f =>
+            dsimp only
+            split
+            · exact safe_valueError
+            · exact safe_raiseIfM _ (safe_isUncanonical P _)
+        · split
+          · exact safe_valueError
+          · exact safe_raiseIfM _ (safe_isUncanonical P _)
     · exact safe_ok _
   · unfold chkBucketIntegral; split
     · exact hni
@@ -108,7 +144,7 @@ theorem safe_preChecks (P : Params) (n : Str) (typ : Option Str) (s : OSample) (
     · exact safe_ok _
 
 /-- the value checks after grouping -/
-theorem safe_postChecks (P : Params) (n : Str) (typ : Option Str) (s : OSample) (hp : Plain s) (hh : NotHuge P s) :
+theorem safe_postChecks (P : Params) (n : Str) (typ : Option Str) (s : OSample) (hp : Plain s) :
     Safe (postChecks P n typ s) := by
   obtain ⟨_, hv⟩ := hp
   obtain ⟨v, hv⟩ := Option.isSome_iff_exists.mp hv
@@ -126,12 +162,11 @@ theorem safe_postChecks (P : Params) (n : Str) (typ : Option Str) (s : OSample) 
     · exact safe_ok _
   · unfold chkNaN; split
     · apply safe_raiseIfM
-      rw [hv]
-      cases v with
-      | int k =>
-        simp only [mathIsNaN]
-        rw [hh k hv]; exact safe_ok _
-      | flt b => exact safe_ok _
+      -- `isinstance(sample.value, float) and math.isnan(…)`: no conversion of an int (afb5815)
+      have hflag : nanGuardsFloat = true := by decide
+      unfold nanTest
+      rw [if_pos hflag]
+      split <;> exact safe_ok _
     · exact safe_ok _
   · unfold chkNeg; split
     · rw [hv]; exact safe_raiseIfM _ (safe_cmpOpt_some P _ _ _)
@@ -162,8 +197,8 @@ theorem groupForSample_guarded_some (P : Params) (n : Str) (typ : Option Str) (s
           · rw [hl] at hg; cases hg
 
 /-- grouping, timestamps and duplicate suppression -/
-theorem safe_groupStep (P : Params) (k : Bool) (gr : Grp) (n : Str) (typ : Option Str) (s : OSample) (hp : Plain s)
-    (hpre : preChecks P n typ s = .ok ()) (hg : TsClass k gr.groupTs) (hs : TsClass k s.ts) :
+theorem safe_groupStep (P : Params) (gr : Grp) (n : Str) (typ : Option Str) (s : OSample) (hp : Plain s)
+    (hpre : preChecks P n typ s = .ok ()) (hg : TsOK P gr.groupTs) (hs : TsOK P s.ts) :
     Safe (groupStep P gr n (typ.getD []) s) := by
   obtain ⟨l, hl⟩ := Option.isSome_iff_exists.mp hp.1
   obtain ⟨d, hd⟩ := groupForSample_guarded_some P n typ s l hl hpre
@@ -179,30 +214,29 @@ theorem safe_groupStep (P : Params) (k : Bool) (gr : Grp) (n : Str) (typ : Optio
     | error e =>
       intro e' he'; cases he'
       split at h2
-      · exact safe_chkGroupTs P k _ _ _ hg hs e h2
+      · exact safe_chkGroupTs P _ _ _ hg hs e h2
       · cases h2
     | ok u2 =>
       dsimp only
       simp only [labelsOrAttr, hl]
       exact safe_ok _
 
-/-- the whole sample branch after the family is settled -/
-theorem safe_sampleChecks (P : Params) (k : Bool) (h : Hdr) (gr : Grp) (s : OSample) (n : Str) (hn : h.name = some n)
-    (hp : Plain s) (hh : NotHuge P s) (hg : TsClass k gr.groupTs) (hs : TsClass k s.ts) :
+/-- the whole sample branch after the family is settled (plain sample) -/
+theorem safe_sampleChecks (P : Params) (h : Hdr) (gr : Grp) (s : OSample) (n : Str) (hn : h.name = some n)
+    (hp : Plain s) (hnan : NaNLiteral P) (hg : TsOK P gr.groupTs) (hs : TsOK P s.ts) :
     Safe (sampleChecks P h gr s false) := by
-  unfold sampleChecks
-  rw [hn]; dsimp only
+  rw [sampleChecks_false, hn]
+  dsimp only
   cases h1 : preChecks P n h.typ s with
-  | error e => intro e' he'; cases he'; exact safe_preChecks P n h.typ s hp e h1
+  | error e => intro e' he'; cases he'; exact safe_preChecks P n h.typ s hp hnan e h1
   | ok u =>
     dsimp only
-    simp only [Bool.not_false, if_true]
     cases h2 : groupStep P gr n (h.typ.getD []) s with
-    | error e => intro e' he'; cases he'; exact safe_groupStep P k gr n h.typ s hp h1 hg hs e h2
+    | error e => intro e' he'; cases he'; exact safe_groupStep P gr n h.typ s hp h1 hg hs e h2
     | ok gr' =>
       dsimp only
       cases h3 : postChecks P n h.typ s with
-      | error e => intro e' he'; cases he'; exact safe_postChecks P n h.typ s hp hh e h3
+      | error e => intro e' he'; cases he'; exact safe_postChecks P n h.typ s hp e h3
       | ok u3 => exact safe_ok _
 
 end PromVerif.Lemmas.OM
